@@ -20,7 +20,7 @@ RULE = ("Cases: a valid document of a text format (JSON, JSON5, YAML, XML, HTML,
         "variants) serialised deterministically, one corruption {truncate at byte i | delete byte i | duplicate byte i "
         "(delimiter bytes {}[]:,\"<>/=&; newline, space) | replace byte i by an unbalancing bracket/tag character | flip "
         "byte i to a drawn value}, and the position of the corrupt file (first or second) next to a valid file of the "
-        "same type (optionally with an explicit, more permissive type given for the valid file only); JSON/XML documents also in a multi-line layout with trailing newline; files of nothing but white space; a third of the first document's corruptions also arrive on standard input (path - with --from-T / --to-T), half of them right after an invocation in the same process that read the well-formed document from standard input (then stderr must carry a message; the temporary file's name is not checked). Quick: every byte position of 3 fixed documents per format for truncate/delete/duplicate x both "
+        "same type (optionally with an explicit, more permissive type given for the valid file only); JSON/XML documents also in a multi-line layout with trailing newline; files of nothing but white space; bytes appended after the end of a valid document; documents of 3500 records (70-200 KiB) damaged at their end, start and middle; options rotated over the cases include --match-if / --match-unless, -k -l, -e, -d, --format, -j -ll; a third of the first document's corruptions also arrive on standard input (path - with --from-T / --to-T), half of them right after an invocation in the same process that read the well-formed document from standard input (then stderr must carry a message; the temporary file's name is not checked). Quick: every byte position of 3 fixed documents per format for truncate/delete/duplicate x both "
         "positions; thorough adds 30 generated documents per format and byte flips. A corruption is kept only if the "
         "independent parser of the format rejects it (json.loads; json5.loads; both yaml.SafeLoader and "
         "yaml.CSafeLoader; expat; plistlib.loads); the number discarded as still valid is reported. Oracle: main() "
@@ -44,7 +44,10 @@ FORMATS = ['json', 'json5', 'yaml', 'xml', 'html', 'plist']
 # an explicit type for the *valid* file, chosen among parsers that also read it (JSON is valid JSON5 and valid YAML): the
 # corrupt file keeps its honest name and must still be judged by its own type
 EXPLICIT = {'json': [None, 'json5', 'yaml', None], 'json5': [None, 'yaml']}
-OPTS = ['--no-status', '--no-status', '--quiet', '--no-status --log-level CRITICAL', '--no-status --debug']
+OPTS = ['--no-status', '--no-status', '--quiet', '--no-status --log-level CRITICAL', '--no-status --debug',
+        '--no-status -m from==to', '--no-status -u from==to', '--no-status -k -l', '--no-status -e', '--no-status -d',
+        '--no-status --format yaml', '--no-status -j -ll', '--no-status -m to!=from -u from==to -k']
+APPENDED = ['>', '}', ']', '</x>', '<y/>', 'x', '{', '<!--', '\n- ]', '"']
 DELIMS = set(b'{}[]:,"<>/=&;\n -')
 UNBALANCE = b'{[<"\'>]}'
 
@@ -67,7 +70,17 @@ def EXHAUSTIVE(tier):
     return False
 
 
+def big_doc(fmt, n):
+    """a document of n records (tens of kilobytes once serialised), written in cases as {'__big__': n}"""
+    if fmt in ('xml', 'html'):
+        return {'tag': 'root', 'attrib': {'v': '1'}, 'text': None,
+                'children': [{'tag': 'i', 'attrib': {'n': str(i)}, 'text': 'xxxxxxxxxx', 'children': []} for i in range(n)]}
+    return {'items': [{'id': i, 'v': 'xxxxxxxxxx'} for i in range(n)], 'tail': 'end'}
+
+
 def serialise(fmt, doc, ascii_only=True, layout='compact'):
+    if isinstance(doc, dict) and set(doc) == {'__big__'}:
+        doc = big_doc(fmt, doc['__big__'])
     if fmt in ('json', 'json5'):
         if layout == 'pretty':      # several lines and a trailing newline, as editors and `json.dump(indent=2)` users produce
             return (json.dumps(doc, ensure_ascii=ascii_only, indent=2) + '\n').encode('utf-8')
@@ -121,6 +134,15 @@ def corrupt(data, c):
         return c['bytes'].encode()
     if k == 'truncate':
         return data[:i]
+    if k == 'append':                   # something after the end of the document
+        return data + c['bytes'].encode()
+    if k == 'fromend':                  # delete / duplicate the i-th byte counted from the end (large documents)
+        j = len(data) - 1 - i
+        if j < 0:
+            return None
+        return data[:j] + data[j + 1:] if c.get('op') == 'delete' else data[:j] + data[j:j + 1] + data[j:]
+    if k == 'cutend':
+        return data[:max(0, len(data) - i)]
     if i >= len(data):
         return None
     if k == 'delete':
@@ -187,6 +209,28 @@ def run_job(job, seed, sink):
                                 sink.fast({'fmt': fmt, 'doc': doc, 'ascii': ascii_only, 'corruption': c, 'position': pos, 'opts': '--no-status',
                                            'layout': 'compact', 'explicit': None, 'stdin': True, 'warm': ci % 2 == 0})
                             i += 1
+            # something after the end of an otherwise valid document
+            for ap in APPENDED:
+                for pos in (0, 1):
+                    if i % 16 == job['shard']:
+                        sink.fast({'fmt': fmt, 'doc': DOCS[fmt][0], 'ascii': True, 'corruption': {'kind': 'append', 'bytes': ap},
+                                   'position': pos, 'opts': OPTS[(i // 16) % len(OPTS)], 'layout': 'compact', 'explicit': None})
+                    i += 1
+            # documents of tens of kilobytes (beyond typical buffer and threshold sizes), damaged near the end, at the start and
+            # in the middle
+            if fmt != 'json5':          # (the independent json5 parser needs seconds per document of this size)
+                n = 3500
+                big = [{'kind': 'append', 'bytes': ap} for ap in APPENDED[:6]]
+                big += [{'kind': 'cutend', 'at': k} for k in (1, 2, 3, 7, 20)] + [{'kind': 'truncate', 'at': k} for k in (0, 1, 9, 40000, 70000)]
+                big += [{'kind': 'fromend', 'at': k, 'op': op} for k in (0, 1, 2, 5) for op in ('delete', 'dup')]
+                if fmt == 'yaml':
+                    big = big[::3]
+                for c in big:
+                    for pos in (0, 1):
+                        if i % 16 == job['shard']:
+                            sink.fast({'fmt': fmt, 'doc': {'__big__': n}, 'ascii': True, 'corruption': c, 'position': pos,
+                                       'opts': '--no-status', 'layout': 'compact', 'explicit': None})
+                        i += 1
             # degenerate files: nothing but white space
             for blank in (b'\n', b'\n\n\n', b' ', b'\t\n'):
                 for pos in (0, 1):
@@ -268,7 +312,9 @@ def check(case):
         elif os.path.basename(pbad) not in r.err:
             out.fail('error-does-not-name-file', f"{what}: stderr {r.err[-200:]!r} does not mention {os.path.basename(pbad)}")
     out.nontrivial = len(bad) > 0
-    out.label('fmt:' + fmt, 'kind:' + case['corruption']['kind'], 'pos:%d' % case.get('position', 0))
+    out.label('fmt:' + fmt, 'kind:' + case['corruption']['kind'], 'pos:%d' % case.get('position', 0), 'opts:' + case.get('opts', '--no-status'))
+    if len(good) > 65536:
+        out.label('document-over-64KiB')
     if case.get('stdin'):
         out.label('via-stdin', 'after-valid-stdin-run' if case.get('warm') else 'first-stdin-run')
     out.info = {'rc': r.rc if not isinstance(r.rc, tuple) else list(r.rc), 'stderr': r.err[-120:]}
